@@ -108,6 +108,9 @@ pub enum Act {
     Drop { run: usize, f: usize },
     DropStream { run: usize },
     Abort { run: usize },
+    /// stream: poll repeatedly, dropping every yielded `FnRef` at once, until `Pending` / `None`
+    /// (one tight consumer loop — under `coop` inside ONE budget window)
+    Drain { run: usize },
 }
 
 impl Act {
@@ -121,6 +124,7 @@ impl Act {
             Act::Drop { run, f } => format!("drop:{}:{}", run, f),
             Act::DropStream { run } => format!("dropstream:{}", run),
             Act::Abort { run } => format!("abort:{}", run),
+            Act::Drain { run } => format!("drain:{}", run),
         }
     }
     pub fn parse(s: &str) -> Option<Act> {
@@ -133,6 +137,7 @@ impl Act {
             "drop" => Act::Drop { run, f: t.get(2)?.parse().ok()? },
             "dropstream" => Act::DropStream { run },
             "abort" => Act::Abort { run },
+            "drain" => Act::Drain { run },
             _ => return None,
         })
     }
@@ -150,6 +155,37 @@ struct GateSt {
 type IntrTx = tokio::sync::mpsc::Sender<interruptible::InterruptSignal>;
 #[cfg(not(feature = "intr"))]
 type IntrTx = ();
+
+/// An `InterruptibilityState` owned by the caller and handed to several runs with `reborrow()`
+/// (its received-signal flag and poll counter outlive each run), plus the sender of its channel.
+#[cfg(feature = "intr")]
+pub struct SharedIntr {
+    pub state: interruptible::InterruptibilityState<'static, 'static>,
+    pub tx: tokio::sync::mpsc::Sender<interruptible::InterruptSignal>,
+}
+#[cfg(not(feature = "intr"))]
+pub struct SharedIntr;
+
+#[cfg(feature = "intr")]
+impl SharedIntr {
+    pub fn new(strat: Strat) -> Self {
+        use interruptible::InterruptibilityState;
+        let (tx, rx) = tokio::sync::mpsc::channel::<interruptible::InterruptSignal>(16);
+        let state = match strat {
+            Strat::Non => InterruptibilityState::new_non_interruptible(),
+            Strat::Ignore => InterruptibilityState::new_ignore_interruptions(rx.into()),
+            Strat::Finish => InterruptibilityState::new_finish_current(rx.into()),
+            Strat::PollN(k) => InterruptibilityState::new_poll_next_n(rx.into(), k),
+        };
+        SharedIntr { state, tx }
+    }
+}
+#[cfg(not(feature = "intr"))]
+impl SharedIntr {
+    pub fn new(_strat: Strat) -> Self {
+        SharedIntr
+    }
+}
 
 pub struct Shared {
     auto: Cell<u8>, // gates are born open (1: all ok, 2: every third fails, 3: all fail — failures only in try_* runs)
@@ -278,27 +314,35 @@ pub enum GraphRef<'a> {
     Mut(&'a mut FnGraph<TestFn>),
 }
 
-fn mk_opts<'a>(cfg: &RunCfg, sh: &Rc<Shared>, run: usize) -> StreamOpts<'a, 'a> {
+fn mk_opts<'a>(cfg: &RunCfg, sh: &Rc<Shared>, run: usize, shared: Option<&'a mut SharedIntr>) -> StreamOpts<'a, 'a> {
     let mut opts = StreamOpts::new();
     // the three builder methods, called in the order given by `cfg.ord` (they must commute)
     const PERMS: [[u8; 3]; 6] = [[0, 1, 2], [0, 2, 1], [1, 0, 2], [1, 2, 0], [2, 0, 1], [2, 1, 0]];
     #[cfg(feature = "intr")]
-    let mut state = {
+    let mut state: Option<interruptible::InterruptibilityState<'a, 'a>> = {
         use interruptible::InterruptibilityState;
-        let (tx, rx) = tokio::sync::mpsc::channel::<interruptible::InterruptSignal>(16);
-        let state = match cfg.strat {
-            Strat::Non => InterruptibilityState::new_non_interruptible(),
-            Strat::Ignore => InterruptibilityState::new_ignore_interruptions(rx.into()),
-            Strat::Finish => InterruptibilityState::new_finish_current(rx.into()),
-            Strat::PollN(k) => InterruptibilityState::new_poll_next_n(rx.into(), k),
+        let (tx, st) = match shared {
+            Some(si) => (si.tx.clone(), si.state.reborrow()),
+            None => {
+                let (tx, rx) = tokio::sync::mpsc::channel::<interruptible::InterruptSignal>(16);
+                let state = match cfg.strat {
+                    Strat::Non => InterruptibilityState::new_non_interruptible(),
+                    Strat::Ignore => InterruptibilityState::new_ignore_interruptions(rx.into()),
+                    Strat::Finish => InterruptibilityState::new_finish_current(rx.into()),
+                    Strat::PollN(k) => InterruptibilityState::new_poll_next_n(rx.into(), k),
+                };
+                (tx, state)
+            }
         };
         let mut v = sh.intr_tx.borrow_mut();
         while v.len() <= run {
             v.push(None);
         }
         v[run] = Some(tx);
-        Some(state)
+        Some(st)
     };
+    #[cfg(not(feature = "intr"))]
+    let _ = shared;
     for step in PERMS[(cfg.ord % 6) as usize] {
         match step {
             0 => {
@@ -328,13 +372,14 @@ fn mk_opts<'a>(cfg: &RunCfg, sh: &Rc<Shared>, run: usize) -> StreamOpts<'a, 'a> 
 }
 
 /// Creates the root future / stream of one run on the real graph.
-pub fn make_root<'a>(g: GraphRef<'a>, cfg: &RunCfg, sh: &Rc<Shared>, run: usize) -> Root<'a> {
+pub fn make_root<'a>(g: GraphRef<'a>, cfg: &RunCfg, sh: &Rc<Shared>, run: usize, shared: Option<&'a mut SharedIntr>) -> Root<'a> {
+    let mut shared = shared;
     let limit = cfg.limit;
     let s = sh.clone();
     let api = cfg.api.as_str();
     macro_rules! opts {
         () => {
-            mk_opts(cfg, sh, run)
+            mk_opts(cfg, sh, run, shared.take())
         };
     }
     macro_rules! fe {
@@ -736,9 +781,11 @@ pub fn session<'g>(
     cfgs: &[RunCfg],
     coop: bool,
     auto: u8,
+    shared_intr: Option<&'g mut SharedIntr>,
     out: &mut Vec<String>,
     choose: &mut dyn FnMut(&View, usize) -> Option<Vec<Act>>,
 ) {
+    let mut shared_intr = shared_intr;
     let sh = Rc::new(Shared {
         auto: Cell::new(auto),
         is_try: RefCell::new(cfgs.iter().map(|c| c.is_try()).collect()),
@@ -755,7 +802,7 @@ pub fn session<'g>(
             s2.ev(format!("ev {} handout {}", r, f));
         })));
     }
-    out.push(format!("session k={} coop={} auto={}", cfgs.len(), coop as u8, auto));
+    out.push(format!("session k={} coop={} auto={} shared={}", cfgs.len(), coop as u8, auto, (shared_intr.is_some() && cfgs.len() == 1 && cfgs[0].has_opts()) as u8));
     for (i, c) in cfgs.iter().enumerate() {
         out.push(c.line(i));
     }
@@ -765,7 +812,7 @@ pub fn session<'g>(
 
     let mut runs: Vec<RunSt<'g>> = Vec::new();
     if cfgs.len() == 1 && cfgs[0].is_mut() {
-        let root = make_root(GraphRef::Mut(graph), &cfgs[0], &sh, 0);
+        let root = make_root(GraphRef::Mut(graph), &cfgs[0], &sh, 0, shared_intr);
         runs.push(RunSt {
             cfg: cfgs[0].clone(),
             root,
@@ -780,7 +827,7 @@ pub fn session<'g>(
     } else {
         let gshared: &'g FnGraph<TestFn> = graph;
         for (i, c) in cfgs.iter().enumerate() {
-            let root = make_root(GraphRef::Shared(gshared), c, &sh, i);
+            let root = make_root(GraphRef::Shared(gshared), c, &sh, i, if cfgs.len() == 1 { shared_intr.take() } else { None });
             runs.push(RunSt {
                 cfg: c.clone(),
                 root,
@@ -866,6 +913,11 @@ pub fn session<'g>(
                         }
                     }
                 }
+                Act::Drain { run } => {
+                    if let Some(r) = runs.get_mut(*run) {
+                        drain_stream(r, *run, &sh, coop);
+                    }
+                }
                 Act::Drop { run, f } => {
                     if let Some(r) = runs.get_mut(*run) {
                         match r.live.remove(f) {
@@ -900,6 +952,7 @@ pub fn session<'g>(
         flush(out);
         // ---- poll future-roots until quiescent
         let mut iters = 0;
+        let mut polled: Vec<bool> = vec![false; runs.len()];
         loop {
             let mut progressed = false;
             for (i, r) in runs.iter_mut().enumerate() {
@@ -909,6 +962,7 @@ pub fn session<'g>(
                 if let Root::Fut(fut) = &mut r.root {
                     if r.flag.0.swap(false, Ordering::SeqCst) {
                         progressed = true;
+                        polled[i] = true;
                         sh.cur_run.set(i);
                         let waker = Waker::from(r.flag.clone());
                         let mut cx = Context::from_waker(&waker);
@@ -944,8 +998,10 @@ pub fn session<'g>(
                 break;
             }
         }
+        // a quiescent point is logged only when the root was actually polled in this round (a signal
+        // sent at a quiescent point wakes nobody: the state of the real call has not changed)
         for (i, r) in runs.iter().enumerate() {
-            if !r.finished {
+            if !r.finished && polled[i] {
                 if let Root::Fut(_) = r.root {
                     sh.ev(format!("ev {} q", i));
                 }
@@ -1004,5 +1060,83 @@ fn poll_stream<'a>(r: &mut RunSt<'a>, run: usize, sh: &Rc<Shared>, coop: bool) {
         };
         sh.ev(format!("ev {} poll {}", run, text));
         r.last_poll = Some(text);
+    }
+}
+
+/// One tight consumer loop: `while let Some(f) = stream.next() { drop(f) }` until `Pending`/`None`,
+/// inside a single budget window when `coop` is on.  The wake flag of the final `Pending` is read
+/// after the window (tokio defers a budget-induced wake-up to the runtime).
+fn drain_stream<'a>(r: &mut RunSt<'a>, run: usize, sh: &Rc<Shared>, coop: bool) {
+    let mut final_pending = false;
+    {
+        let flag = r.flag.clone();
+        let live = &mut r.live;
+        let yielded = &mut r.yielded;
+        let polls = &mut r.polls;
+        let finished = &mut r.finished;
+        let root = &mut r.root;
+        let fp = &mut final_pending;
+        let sh2 = sh.clone();
+        poll_in(coop, move || {
+            if let Root::Stream(st) = root {
+                sh2.cur_run.set(run);
+                for _ in 0..400 {
+                    flag.0.store(false, Ordering::SeqCst);
+                    let waker = Waker::from(flag.clone());
+                    let mut cx = Context::from_waker(&waker);
+                    let res = catch_unwind(AssertUnwindSafe(|| st.as_mut().poll_next(&mut cx)));
+                    *polls += 1;
+                    match res {
+                        Ok(Poll::Pending) => {
+                            *fp = true;
+                            break;
+                        }
+                        Ok(Poll::Ready(None)) => {
+                            sh2.ev(format!("ev {} poll none", run));
+                            break;
+                        }
+                        Ok(Poll::Ready(Some(item))) => {
+                            let (tag, fr) = match item {
+                                SItem::Plain(fr) => ("some", Some(fr)),
+                                SItem::ISome(fr) => ("isome", Some(fr)),
+                                SItem::INone => ("inone", None),
+                            };
+                            match fr {
+                                Some(fr) => {
+                                    let id = fr.idx;
+                                    *yielded += 1;
+                                    sh2.ev(format!("ev {} poll {} {}", run, tag, id));
+                                    flag.0.store(false, Ordering::SeqCst);
+                                    let _ = live;
+                                    let r2 = catch_unwind(AssertUnwindSafe(move || drop(fr)));
+                                    let woken = flag.0.load(Ordering::SeqCst);
+                                    match r2 {
+                                        Ok(()) => sh2.ev(format!("ev {} drop {} woken={}", run, id, woken as u8)),
+                                        Err(_) => sh2.ev(format!("ev {} panic drop", run)),
+                                    }
+                                }
+                                None => sh2.ev(format!("ev {} poll inone", run)),
+                            }
+                        }
+                        Err(_) => {
+                            *finished = true;
+                            sh2.ev(format!("ev {} poll panic", run));
+                            break;
+                        }
+                    }
+                }
+            }
+        });
+    }
+    if final_pending {
+        let woken = r.flag.0.load(Ordering::SeqCst) as u8;
+        let text = format!("pending woken={}", woken);
+        sh.ev(format!("ev {} poll {}", run, text));
+        r.last_poll = Some(text);
+    } else {
+        r.last_poll = Some("drained".to_string());
+    }
+    if r.finished {
+        std::mem::forget(std::mem::replace(&mut r.root, Root::Gone));
     }
 }
